@@ -11,6 +11,7 @@ import (
 	"github.com/projecteru2/core/store"
 	"github.com/projecteru2/core/types"
 	"github.com/projecteru2/core/wal"
+	"github.com/projecteru2/core/wal/kv"
 )
 
 // NewForVerif assembles a Calcium from caller-supplied parts (verification harness only).
@@ -24,6 +25,21 @@ func NewForVerif(config types.Config, stor store.Store, rmgr resource.Manager, w
 		}
 	}
 	cal.wal = w
+	cal.identifier, err = config.Identifier()
+	return cal, err
+}
+
+// NewForVerifWithWALKV is NewForVerif with the real Hydro and the real handlers running on a
+// caller-supplied kv.KV (so that the harness can intercept every WAL read/write).
+func NewForVerifWithWALKV(config types.Config, stor store.Store, rmgr resource.Manager, walKV kv.KV, pool *ants.PoolWithFunc, watcher discovery.Service) (*Calcium, error) {
+	cal := &Calcium{store: stor, config: config, watcher: watcher, rmgr: rmgr, pool: pool}
+	hydro := wal.NewHydroWithKV(walKV)
+	hydro.Register(newCreateLambdaHandler(config, cal, stor))
+	hydro.Register(newCreateWorkloadHandler(config, cal, stor))
+	hydro.Register(newWorkloadResourceAllocatedHandler(config, cal, stor))
+	hydro.Register(newProcessingCreatedHandler(config, cal, stor))
+	cal.wal = hydro
+	var err error
 	cal.identifier, err = config.Identifier()
 	return cal, err
 }
